@@ -103,6 +103,7 @@ def run(prop, quiet=False, jobs=None):
             summary["ok"] += 1
         elif status == "stale":
             summary["stale"] += 1
+            summary.setdefault("stale_ids", []).append(vid)
         else:
             summary["failed"].append(f"{vid}: {status}: {detail}")
         if not quiet:
